@@ -77,6 +77,7 @@ fn streams() -> Vec<(&'static str, GenFn, EvalFn)> {
         ("taukeys", s_tau::gen, s_tau::eval),
         ("exprimg", s_exprimg::gen, s_exprimg::eval),
         ("dtlat", s_dtlat::gen, s_dtlat::eval),
+        ("dialectfns", s_dialect::gen_fns, s_dialect::eval_fns),
         ("injlat", s_injlat::gen, s_injlat::eval),
     ]
 }
@@ -89,8 +90,15 @@ pub fn main() {
     }
     let mode = args[1].as_str();
     let stream = args[2].as_str();
+    // silence panic messages of the library under catch_unwind (they are recorded in the outcome instead)
+    std::panic::set_hook(Box::new(|info| {
+        let loc = info.location().map(|l| format!("{}:{}", l.file(), l.line())).unwrap_or_default();
+        let msg = if let Some(s) = info.payload().downcast_ref::<&str>() { s.to_string() }
+                  else if let Some(s) = info.payload().downcast_ref::<String>() { s.clone() } else { String::new() };
+        LAST_PANIC.with(|p| *p.borrow_mut() = Some((loc, msg)));
+    }));
     if mode == "dump" {
-        let v = match stream { "rules" => s_rules::dump_rules(), "dialects" => s_dialect::dump_dialects(), _ => { eprintln!("unknown dump {stream}"); std::process::exit(2) } };
+        let v = match stream { "rules" => s_rules::dump_rules(), "dialects" => s_dialect::dump_dialects(), "dialectfns" => s_dialect::dump_dialect_fns(), _ => { eprintln!("unknown dump {stream}"); std::process::exit(2) } };
         println!("{}", v);
         return;
     }
@@ -112,13 +120,6 @@ pub fn main() {
             _ => { i += 1; }
         }
     }
-    // silence panic messages of the library under catch_unwind (they are recorded in the outcome instead)
-    std::panic::set_hook(Box::new(|info| {
-        let loc = info.location().map(|l| format!("{}:{}", l.file(), l.line())).unwrap_or_default();
-        let msg = if let Some(s) = info.payload().downcast_ref::<&str>() { s.to_string() }
-                  else if let Some(s) = info.payload().downcast_ref::<String>() { s.clone() } else { String::new() };
-        LAST_PANIC.with(|p| *p.borrow_mut() = Some((loc, msg)));
-    }));
     let (_, g, e) = streams().into_iter().find(|(name, _, _)| *name == stream)
         .unwrap_or_else(|| { eprintln!("unknown stream {stream}"); std::process::exit(2) });
     let out = std::io::stdout();
